@@ -206,7 +206,7 @@ def _to_number(number):
     if isinstance(number, (bool, np.bool_)):
         return np.nan
     try:
-        return float(number)
+        return _float(number)
     except (ValueError, TypeError):
         return np.nan
 
@@ -233,7 +233,7 @@ def is_number(number, xl_return=True, bool_return=False):
         return False
     else:
         try:
-            float(number)
+            _float(number)
         except (ValueError, TypeError):
             return False
     return True
@@ -244,7 +244,7 @@ def _text2num(value):
         value = value.tolist()
     if not isinstance(value, Error) and isinstance(value, str):
         try:
-            return float(value)
+            return _float(value)
         except (ValueError, TypeError):
             from .date import xdate, _text2datetime
             try:
@@ -264,7 +264,7 @@ def _convert2float(v):
     if isinstance(v, bool):
         return int(v)
     if isinstance(v, str):
-        return float(_text2num(v))
+        return _float(_text2num(v))
     return float(v)
 
 
@@ -274,7 +274,7 @@ def _convert_args(v):
     if isinstance(v, bool):
         return int(v)
     if isinstance(v, str):
-        return float(_text2num(v))
+        return _float(_text2num(v))
     return v
 
 
